@@ -19,6 +19,7 @@ type Script struct {
 	Name    string
 	N, MP   int
 	QB, TB  int // preemption bound of the quick / thorough tier
+	Dse1    bool
 	Threads [][]SOp
 }
 
@@ -49,6 +50,10 @@ func (s Script) Harness(cost string, bound int) *explore.Harness {
 }
 
 func (s Script) body(o *explore.Obs) {
+	Ver = primitive.ProtocolVersionDse2
+	if s.Dse1 {
+		Ver = primitive.ProtocolVersionDse1
+	}
 	ctx, cancel := vctx.WithCancel(vctx.Background())
 	defer cancel()
 	h := client.VNewHandler(ctx, s.N, s.MP, time.Hour)
